@@ -183,3 +183,53 @@ pub fn replay(v: &serde_json::Value) -> i32 {
     println!("Command::parse({line:?}) -> {a:?}; expression::parser -> {b:?}");
     if a.is_err() || b.is_err() { 1 } else { 0 }
 }
+
+
+/// C08 (b): executing data queries and boundary-valued commands on a live session.
+pub fn part_exec(tier: Tier) -> Part {
+    use serde_json::json;
+    let mut part = Part::new("c08_exec");
+    part.rule = "at a stop in a std-linked program with 25 locals of collection, pointer, enum, slice, static and thread-local types: every data-query expression base + up to 2 (quick) / 3 (thorough, reduced operator set) operators over 18 bases x 30 operators (indexes 0, 1, len, u64::MAX, negative; ranges incl. reversed and past the end; fields, tuple fields, deref, address-of, canonical, casts of bogus addresses, string / struct-pattern keys) is parsed by the real parser and evaluated with read_variable + read_argument + names + a full walk of the value tree; then ~250 boundary-valued API calls (frame / thread / breakpoint / watchpoint numbers, memory addresses and lengths, register names, file:line and function designators). No panic, nothing slower than 5 s, registers and text of the debuggee unchanged, the session continues to the program's normal end".into();
+    let (exe, file, line) = match crate::c06s::ensure_built(3, 5) {
+        Ok(x) => x,
+        Err(e) => {
+            part.violate("MACHINERY:std-build", e, json!(null));
+            return part;
+        }
+    };
+    let bases = ["s_utf8", "v_i32", "v_empty", "vv", "v_str", "vd", "hm", "hm_key", "hs", "bm", "bs", "bx", "rc", "arc", "rcell", "opt_s", "opt_none", "arr", "sl", "tup", "G_U32", "TL_A", "nosuchvar", "n"];
+    let ops_full = [
+        "[0]", "[1]", "[3]", "[18446744073709551615]", "[-1]", "[0..]", "[..0]", "[3..1]", "[1..999]", "[..]", "[2..2]", "[18446744073709551615..]", "[0..1000000000000]", "[1000000000000]", ".a", ".0", ".__0", ".len", ".value", ".data_ptr", "pre:*", "pre:&", "pre:~", "[\"k\"]", "[{a: 1, b: *}]", "[{a: *}]", "[true]", "[*]", "wrap:(*mut u8){}", "wrap:*((*mut u64)0x10)", "wrap:({})", "wrap:**{}",
+    ];
+    let ops_small = ["[0]", "[18446744073709551615]", "[3..1]", "[..]", ".__0", ".value", "pre:*", "pre:&", "pre:~", "[{a: *}]"];
+    let mut jobs = vec![json!({"op": "c08_sweep", "bases": bases, "ops": ops_full, "depth": 2})];
+    if tier == Tier::Thorough {
+        jobs.push(json!({"op": "c08_sweep", "bases": bases, "ops": ops_small, "depth": 3}));
+    }
+    let mut cmds = vec![json!({"op": "break_line", "file": file, "line": line}), json!({"op": "start"})];
+    cmds.extend(jobs);
+    cmds.push(json!({"op": "continue"}));
+    let run = crate::mt::session(&exe, |obs| cmds.get(obs.len()).cloned(), std::time::Duration::from_secs(600), cmds.len());
+    let replay = json!({"engine": "mt", "exe": exe, "commands": cmds});
+    part.states = run.obs.len() as u64;
+    if run.hang_at.is_some() || run.crashed.is_some() {
+        part.violate("C08:exec:session-died", format!("hang at command {:?}, crash {:?}", run.hang_at, run.crashed), replay);
+        return part;
+    }
+    for o in &run.obs {
+        if o["cmd"]["op"] != "c08_sweep" {
+            continue;
+        }
+        part.evaluations += o["res"]["evaluations"].as_u64().unwrap_or(0);
+        part.distinct_nontrivial += o["res"]["with_result"].as_u64().unwrap_or(0);
+        part.sample(json!({"expressions": o["res"]["expressions"], "with_result": o["res"]["with_result"], "parse_errors": o["res"]["parse_errors"], "eval_errors": o["res"]["eval_errors"], "api_calls": o["res"]["api_calls"], "slowest": o["res"]["slowest"]}));
+        for f in o["res"]["findings"].as_array().cloned().unwrap_or_default() {
+            part.violate(f["sig"].as_str().unwrap_or("C08:exec:?").to_string(), f["detail"].as_str().unwrap_or("").to_string(), replay.clone());
+        }
+    }
+    if !run.obs.last().map(|o| o["res"]["kind"] == "exit").unwrap_or(false) {
+        part.violate("C08:exec:program-does-not-finish-after-sweep", format!("{:?}", run.obs.last().map(|o| o["res"].clone())), replay);
+    }
+    part.bounds = json!({"bases": bases.len(), "operators": ops_full.len(), "depth": if tier == Tier::Thorough { 3 } else { 2 }});
+    part
+}
